@@ -1,14 +1,193 @@
 package main
 
 import (
+	"fmt"
 	"go/token"
 	"go/types"
+	"math"
+	"math/big"
 )
 
+// Bit-precise mode (`arith bv`): Go integers are bit-vectors of their width,
+// float64 is IEEE binary64 with round-to-nearest-even. Only scalar code is
+// supported in this mode (no slices, maps or pointers): it is meant for the
+// arithmetic leaf functions whose result value a property constrains.
+
+func bvWidth(t types.Type) (int, bool) {
+	b, ok := t.Underlying().(*types.Basic)
+	if !ok {
+		return 64, true
+	}
+	switch b.Kind() {
+	case types.Int8:
+		return 8, true
+	case types.Uint8:
+		return 8, false
+	case types.Int16:
+		return 16, true
+	case types.Uint16:
+		return 16, false
+	case types.Int32:
+		return 32, true
+	case types.Uint32:
+		return 32, false
+	case types.Uint, types.Uint64, types.Uintptr:
+		return 64, false
+	}
+	return 64, true
+}
+
+func bvSort(w int) string { return fmt.Sprintf("(_ BitVec %d)", w) }
+
+func bvLit(v *big.Int, w int) string {
+	m := new(big.Int).Lsh(big.NewInt(1), uint(w))
+	x := new(big.Int).Mod(v, m)
+	return fmt.Sprintf("(_ bv%s %d)", x.String(), w)
+}
+
+func fpLit(f float64) string {
+	return fmt.Sprintf("((_ to_fp 11 53) #x%016x)", math.Float64bits(f))
+}
+
 func (e *Exec) binopBV(fr *frame, st *State, op token.Token, x, y Val, xt, rt types.Type, pos token.Pos) Val {
-	panic("bv mode not implemented yet")
+	s := e.ctx.sortOf(xt)
+	b := func(t string) Val { return Val{T: t, S: sBool} }
+	if s == sF {
+		switch op {
+		case token.ADD:
+			return Val{T: app("fp.add", "RNE", x.T, y.T), S: sF}
+		case token.SUB:
+			return Val{T: app("fp.sub", "RNE", x.T, y.T), S: sF}
+		case token.MUL:
+			return Val{T: app("fp.mul", "RNE", x.T, y.T), S: sF}
+		case token.QUO:
+			return Val{T: app("fp.div", "RNE", x.T, y.T), S: sF}
+		case token.EQL:
+			return b(app("fp.eq", x.T, y.T))
+		case token.NEQ:
+			return b(not(app("fp.eq", x.T, y.T)))
+		case token.LSS:
+			return b(app("fp.lt", x.T, y.T))
+		case token.LEQ:
+			return b(app("fp.leq", x.T, y.T))
+		case token.GTR:
+			return b(app("fp.gt", x.T, y.T))
+		case token.GEQ:
+			return b(app("fp.geq", x.T, y.T))
+		}
+	}
+	if s == sBool {
+		switch op {
+		case token.EQL:
+			return b(eq(x.T, y.T))
+		case token.NEQ:
+			return b(not(eq(x.T, y.T)))
+		}
+	}
+	if _, isBasic := xt.Underlying().(*types.Basic); isBasic && s != sStr && s != sBool {
+		w, signed := bvWidth(xt)
+		cmp := func(sop, uop string) Val {
+			if signed {
+				return b(app(sop, x.T, y.T))
+			}
+			return b(app(uop, x.T, y.T))
+		}
+		switch op {
+		case token.ADD:
+			return Val{T: app("bvadd", x.T, y.T), S: s}
+		case token.SUB:
+			return Val{T: app("bvsub", x.T, y.T), S: s}
+		case token.MUL:
+			return Val{T: app("bvmul", x.T, y.T), S: s}
+		case token.QUO, token.REM:
+			e.oblige(fr, st, "div", "integer division by zero", pos, not(eq(y.T, bvLit(big.NewInt(0), w))))
+			name := map[bool]map[token.Token]string{true: {token.QUO: "bvsdiv", token.REM: "bvsrem"}, false: {token.QUO: "bvudiv", token.REM: "bvurem"}}[signed][op]
+			return Val{T: app(name, x.T, y.T), S: s}
+		case token.AND:
+			return Val{T: app("bvand", x.T, y.T), S: s}
+		case token.OR:
+			return Val{T: app("bvor", x.T, y.T), S: s}
+		case token.XOR:
+			return Val{T: app("bvxor", x.T, y.T), S: s}
+		case token.EQL:
+			return b(eq(x.T, y.T))
+		case token.NEQ:
+			return b(not(eq(x.T, y.T)))
+		case token.LSS:
+			return cmp("bvslt", "bvult")
+		case token.LEQ:
+			return cmp("bvsle", "bvule")
+		case token.GTR:
+			return cmp("bvsgt", "bvugt")
+		case token.GEQ:
+			return cmp("bvsge", "bvuge")
+		}
+	}
+	switch op {
+	case token.EQL:
+		return b(eq(x.T, y.T))
+	case token.NEQ:
+		return b(not(eq(x.T, y.T)))
+	}
+	e.note("%s: operator %s not modelled in bv mode: result havoced", e.w.pos(pos), op)
+	return e.havocVal(st, rt, "binop")
 }
 
 func (e *Exec) convertBV(fr *frame, st *State, x Val, from, to types.Type, pos token.Pos) Val {
-	panic("bv mode not implemented yet")
+	fs, ts := e.ctx.sortOf(from), e.ctx.sortOf(to)
+	_, fbasic := from.Underlying().(*types.Basic)
+	_, tbasic := to.Underlying().(*types.Basic)
+	if !fbasic || !tbasic {
+		return e.havocVal(st, to, "conv")
+	}
+	switch {
+	case fs == sF && ts == sF:
+		return x
+	case fs != sF && ts == sF && fs != sStr && fs != sBool:
+		_, signed := bvWidth(from)
+		if signed {
+			return Val{T: app("(_ to_fp 11 53)", "RNE", x.T), S: sF}
+		}
+		return Val{T: app("(_ to_fp_unsigned 11 53)", "RNE", x.T), S: sF}
+	case fs == sF && ts != sF && ts != sStr && ts != sBool:
+		w, signed := bvWidth(to)
+		// Go: the result of converting an out-of-range or NaN float to an integer
+		// is implementation-specific; require it to be in range.
+		var lo, hi float64
+		if signed {
+			lo, hi = -math.Ldexp(1, w-1), math.Ldexp(1, w-1)
+		} else {
+			lo, hi = -1, math.Ldexp(1, w)
+		}
+		inRange := and(not(app("fp.isNaN", x.T)), app("fp.lt", fpLit(lo-btoF(signed)), x.T), app("fp.lt", x.T, fpLit(hi)))
+		if signed {
+			inRange = and(not(app("fp.isNaN", x.T)), app("fp.geq", x.T, fpLit(lo)), app("fp.lt", x.T, fpLit(hi)))
+		}
+		e.oblige(fr, st, "f2i", "float to integer conversion is in range (no NaN, no overflow)", pos, inRange)
+		if signed {
+			return Val{T: app(fmt.Sprintf("(_ fp.to_sbv %d)", w), "RTZ", x.T), S: ts}
+		}
+		return Val{T: app(fmt.Sprintf("(_ fp.to_ubv %d)", w), "RTZ", x.T), S: ts}
+	case fs != sF && ts != sF && fs != sStr && ts != sStr && fs != sBool:
+		fw, fsigned := bvWidth(from)
+		tw, _ := bvWidth(to)
+		switch {
+		case fw == tw:
+			return Val{T: x.T, S: ts}
+		case fw > tw:
+			return Val{T: app(fmt.Sprintf("(_ extract %d 0)", tw-1), x.T), S: ts}
+		case fsigned:
+			return Val{T: app(fmt.Sprintf("(_ sign_extend %d)", tw-fw), x.T), S: ts}
+		default:
+			return Val{T: app(fmt.Sprintf("(_ zero_extend %d)", tw-fw), x.T), S: ts}
+		}
+	}
+	return e.havocVal(st, to, "conv")
+}
+
+func btoF(b bool) float64 {
+	if b {
+		return 1
+	}
+	return 0
 }
